@@ -167,6 +167,7 @@ impl CliResult {
 }
 
 pub struct Lab {
+  pub network: Network,
   pub node: Node,
   pub proxy: Proxy,
   pub explorer: Explorer,
@@ -176,11 +177,17 @@ pub struct Lab {
 
 impl Lab {
   pub fn new(scratch: &str, case: u64, cfg: &IndexCfg) -> anyhow::Result<Lab> {
+    Self::on(Network::Regtest, scratch, case, cfg)
+  }
+
+  /// mockcore's `simulaterawtransaction` only recognises wallet addresses on
+  /// mainnet, so the offer checks run there (as the repository's own tests do).
+  pub fn on(network: Network, scratch: &str, case: u64, cfg: &IndexCfg) -> anyhow::Result<Lab> {
     let dir = PathBuf::from(format!("{}/wallet{}", if scratch.is_empty() { "/tmp/verif-scratch" } else { scratch }, case));
     let _ = std::fs::remove_dir_all(&dir);
     std::fs::create_dir_all(dir.join("server"))?;
     std::fs::create_dir_all(dir.join("cli"))?;
-    let node = Node::new(Network::Regtest);
+    let node = Node::new(network);
     let upstream_port: u16 = node.url().rsplit(':').next().unwrap().trim_end_matches('/').parse()?;
     let proxy = Proxy::start(upstream_port);
     let mut cfg = cfg.clone();
@@ -190,7 +197,7 @@ impl Lab {
     let ord = dir.join("ord");
     let _ = std::fs::remove_file(&ord);
     std::os::unix::fs::symlink(std::env::current_exe()?, &ord)?;
-    Ok(Lab { node, proxy, explorer, dir, ord })
+    Ok(Lab { network, node, proxy, explorer, dir, ord })
   }
 
   /// Bring the explorer's index to the node's tip.
@@ -206,7 +213,7 @@ impl Lab {
       .env("RUST_BACKTRACE", "0")
       .env("HOME", &self.dir)
       .current_dir(&self.dir)
-      .args(["--chain", "regtest", "--bitcoin-rpc-url"])
+      .args(["--chain", if self.network == Network::Bitcoin { "mainnet" } else { "regtest" }, "--bitcoin-rpc-url"])
       .arg(format!("127.0.0.1:{}", self.proxy.port))
       .arg("--cookie-file")
       .arg(self.node.cookie_file())
@@ -367,7 +374,7 @@ impl Lab {
   }
 
   pub fn is_wallet_script(&self, script: &ScriptBuf) -> bool {
-    match Address::from_script(script, Network::Regtest) {
+    match Address::from_script(script, self.network) {
       Ok(a) => self.node.handle.state().is_wallet_address(&a),
       Err(_) => false,
     }
